@@ -209,6 +209,12 @@ def c12_e(ctx: Ctx):
             if not (isinstance(c, ast.Call) and isinstance(c.func, ast.Attribute) and c.func.attr == "init" and not c.args and INIT in common.targets_of(ctx, g, c)):
                 continue
             recv = canon(c.func.value)
+            vs = kwarg(c, "validate_statepoint")
+            if vs is not None and ctx.fold(vs, g) is False and g.qual not in ("signac.job:Job.document", "signac.job:Job.stores", "signac.job:Job.open", "signac.job:Job.__enter__"):
+                out.append(ctx.viol(R, g, c, f"{recv}.init(validate_statepoint=False) outside the lazy accessors: that mode returns as soon as the job directory exists, so a directory that "
+                                    "another process (or a crashed one) created without its state point file is reported as an initialised job and never completed",
+                                    construct=f"{g.qual}|init-validates|{recv}"))
+                continue
             facts = common.facts_at(ctx, g, c, "nx")
             gate = [(t, pol) for (t, pol) in facts if
                     t.replace(" ", "").startswith(recv + "in") or t.replace(" ", "").startswith(recv + "notin")
